@@ -117,7 +117,7 @@ func runChild(o hx.Opts, scens []Scenario, hangMs int) (ended []RawObs, inflight
 	cmd := exec.Command(os.Args[0], "child", jobPath)
 	cmd.Stdout, cmd.Stderr = so, se
 	cmd.ExtraFiles = []*os.File{pw}
-	cmd.Env = append(os.Environ(), "GOTRACEBACK=single", "GOMAXPROCS=4")
+	cmd.Env = append(os.Environ(), "GOTRACEBACK=single", "GOMAXPROCS=16")
 	if err := cmd.Start(); err != nil {
 		hx.Fatal("start child: %v", err)
 	}
@@ -226,7 +226,7 @@ func makeTemplate(o hx.Opts) {
 	}
 	cmd := exec.Command(os.Args[0], "child", jobPath)
 	cmd.ExtraFiles = []*os.File{pw}
-	cmd.Env = append(os.Environ(), "GOTRACEBACK=single", "GOMAXPROCS=4")
+	cmd.Env = append(os.Environ(), "GOTRACEBACK=single", "GOMAXPROCS=16")
 	err = cmd.Run()
 	pw.Close()
 	pr.Close()
@@ -296,7 +296,7 @@ func runShard(o hx.Opts, scens []Scenario, hangMs int) []result {
 }
 
 var svcCode = map[string]int{}
-var streamCode = map[string]int{"dialogue": 1, "truncated": 2, "mutated": 3, "raw": 4, "ssh": 6, "tftp-load": 8, "ber": 9, "ber-fuzz": 9, "size": 10, "ftp-abandon": 11, "ftp-abandon-timeout": 11}
+var streamCode = map[string]int{"dialogue": 1, "truncated": 2, "mutated": 3, "raw": 4, "ssh": 6, "tftp-load": 8, "ber": 9, "ber-fuzz": 9, "size": 10, "ftp-abandon": 11, "ftp-abandon-timeout": 11, "conc": 12}
 var sshTypeCode = map[string]int{"env": 1, "exec": 2, "shell": 3, "pty-req": 4, "subsystem": 5, "tcpip-forward": 6}
 var sshChanCode = map[string]int{"": 0, "session": 0, "direct-tcpip": 1, "forwarded-tcpip": 2}
 
@@ -441,7 +441,11 @@ func main() {
 			shards = append(shards, ab[:n])
 			ab = ab[n:]
 		}
-		bers := berScenarios()
+		// concurrency for every service (one child per service: shared state is per instance)
+		for _, sc := range concScenarios(r, o.Tier != "quick") {
+			shards = append(shards, []Scenario{sc})
+		}
+		bers := append(berScenarios(), snmpScenarios(o.Tier != "quick")...)
 		if o.Tier != "quick" {
 			bers = append(bers, berFuzzScenarios(r, 1500)...)
 		}
@@ -488,7 +492,7 @@ func main() {
 			case sc.Kind == "ssh" || sc.Linger > 0:
 				c += 100 + sc.Linger
 			case sc.Rounds > 0:
-				c += 500
+				c += 500 + 10*sc.Rounds
 			default:
 				c += 6
 			}
@@ -499,22 +503,40 @@ func main() {
 	makeTemplate(o)
 	tStart := time.Now()
 	results := make([][]result, len(shards))
-	var wg sync.WaitGroup
-	sem := make(chan struct{}, 14)
-	for _, i := range order {
-		wg.Add(1)
-		sem <- struct{}{}
-		go func(i int) {
-			defer wg.Done()
-			defer func() { <-sem }()
-			t0 := time.Now()
-			results[i] = runShard(o, shards[i], hangMs)
-			if os.Getenv("C01_TIMING") != "" {
-				fmt.Fprintf(os.Stderr, "shard %d (%s/%s x%d): %d ms, started at %d ms\n", i, shards[i][0].Svc, shards[i][0].Kind, len(shards[i]), time.Since(t0)/time.Millisecond, t0.Sub(tStart)/time.Millisecond)
+	// two phases: scenarios whose point is a race between handler goroutines of ONE child
+	// (concurrent rare branches, tftp load) run first with few children side by side, so
+	// that the goroutines of a child really run in parallel; then everything else
+	raceShard := func(sh []Scenario) bool {
+		for _, sc := range sh {
+			if sc.Kind == "conc" || sc.Kind == "tftp-load" || strings.HasPrefix(sc.Kind, "corpus-tftp-concurrent") {
+				return true
 			}
-		}(i)
+		}
+		return false
 	}
-	wg.Wait()
+	runPhase := func(par int, want bool) {
+		var wg sync.WaitGroup
+		sem := make(chan struct{}, par)
+		for _, i := range order {
+			if raceShard(shards[i]) != want {
+				continue
+			}
+			wg.Add(1)
+			sem <- struct{}{}
+			go func(i int) {
+				defer wg.Done()
+				defer func() { <-sem }()
+				t0 := time.Now()
+				results[i] = runShard(o, shards[i], hangMs)
+				if os.Getenv("C01_TIMING") != "" {
+					fmt.Fprintf(os.Stderr, "shard %d (%s/%s x%d): %d ms, started at %d ms\n", i, shards[i][0].Svc, shards[i][0].Kind, len(shards[i]), time.Since(t0)/time.Millisecond, t0.Sub(tStart)/time.Millisecond)
+				}
+			}(i)
+		}
+		wg.Wait()
+	}
+	runPhase(4, true)
+	runPhase(14, false)
 	dist := map[string]int{}
 	var cases []hx.Case
 	for _, rs := range results {
@@ -543,7 +565,7 @@ func main() {
 		}
 	}
 	sort.Slice(cases, func(a, b int) bool { return cases[a].ID < cases[b].ID })
-	hx.Write(o, "C01", "svc", "From HT Require Import Common.Bytes C01.Model C01.Check.", "case", cases, dist, nil, 60)
+	hx.Write(o, "C01", "svc", "From HT Require Import Common.Bytes C01.Model C01.Check.", "case", cases, dist, nil, 160)
 }
 
 func minInt(a, b int) int {
